@@ -573,7 +573,7 @@ func (t *tr) call(ins ssa.Instruction, cc *ssa.CallCommon, R string, heaps map[s
 		return
 	}
 	for _, rq := range fs.Requires {
-		term, err := t.evalBool(rq.Expr, env, pre, pre)
+		term, err := t.evalGoal(rq.Expr, env, pre, pre)
 		if err != nil {
 			t.fatalf("requires %s of %s (%s): %v", rq.Label, fs.Key, rq.Where, err)
 			continue
@@ -653,7 +653,7 @@ func (t *tr) call(ins ssa.Instruction, cc *ssa.CallCommon, R string, heaps map[s
 		}
 	}
 	for _, e := range fs.Ensures {
-		term, err := t.evalBool(e.Expr, env2, heaps, pre)
+		term, err := t.evalAssume(e.Expr, env2, heaps, pre)
 		if err != nil {
 			t.fatalf("ensures %s of %s (%s): %v", e.Label, fs.Key, e.Where, err)
 			continue
@@ -662,7 +662,7 @@ func (t *tr) call(ins ssa.Instruction, cc *ssa.CallCommon, R string, heaps map[s
 	}
 	if fs.Effect && t.own != nil && len(t.own.Crash) > 0 {
 		for _, ci := range t.own.Crash {
-			term, err := t.evalBool(ci.Expr, t.entryEnv, heaps, t.oldHeaps)
+			term, err := t.evalGoal(ci.Expr, t.entryEnv, heaps, t.oldHeaps)
 			if err != nil {
 				t.fatalf("crash invariant %s: %v", ci.Label, err)
 				continue
